@@ -250,8 +250,8 @@ func (rl *Shell) historyCompletion(forward, filterLine, substring bool) {
 		}
 
 		if substring {
-			rl.completer.GenerateWith(completer)
 			rl.completer.IsearchStart(rl.History.Name(), true, true)
+			rl.completer.GenerateWith(completer)
 		} else {
 			rl.startMenuComplete(completer)
 			rl.completer.AutocompleteForce()
